@@ -773,3 +773,24 @@ mod tests {
         assert_reader_stops(reader, 1).await;
     }
 }
+
+/// Verification access to the framing functions (feature `verif` only)
+#[cfg(feature = "verif")]
+pub(crate) mod verif_access {
+    pub(crate) fn encode(msg: &crate::protocol::NetworkMessage, buf: &mut Vec<u8>) {
+        super::encode_network_message(msg, buf)
+    }
+    pub(crate) fn checked_frame_length(length: u64, max: u64) -> tokio::io::Result<usize> {
+        super::checked_frame_length(length, max)
+    }
+    /// A reader over an external stream
+    pub(crate) struct Reader(super::ActorReadHalf);
+    impl Reader {
+        pub(crate) fn new(r: crate::net::BoxRead) -> Self {
+            Self(super::ActorReadHalf::External(r))
+        }
+        pub(crate) async fn read(&mut self, max: u64) -> tokio::io::Result<crate::protocol::NetworkMessage> {
+            super::read_network_message(&mut self.0, max).await
+        }
+    }
+}
